@@ -1,6 +1,6 @@
 (* Gen/Relative.v -- relative_set_wrapper (preprocessors.py 1104-1152), reset_positions_wrapper (1155-1199),
-   __read_and_stash_a_motor (1052-1101) for independent devices (no pseudo-positioner coupling: coupled_parents
-   is empty), and through them rel_set / mvr (plan_stubs.py 305-450) and the rel_* scans (plans.py).
+   __read_and_stash_a_motor (1052-1101) on a device tree (ordinary parent devices and pseudo-positioners in
+   coupled_parents), and through them rel_set / mvr (plan_stubs.py 305-450) and the rel_* scans (plans.py).
    MODEL ONLY (no proofs).
 
    Positions are values of an arbitrary type T with an addition [add] and the value [zero] the code uses when the
@@ -17,6 +17,11 @@
    [pos_of : val -> T] decodes the position out of an answer that is not None.
 
    store = initial_positions: list (dev * T) in insertion order (an OrderedDict in reset_positions_wrapper).
+   Devices may have parents.  An ORDINARY parent (stage.x) changes nothing.  A pseudo-positioner in coupled_parents
+   changes what is recorded ([record]: the parent's tuple position and the position of every pseudo axis are recorded
+   with the first axis touched) and what the cleanup sends back ([restored]: everything recorded except the axes of a
+   coupled parent, which the parent carries back).  Not modelled: a set addressed to the pseudo-positioner object
+   itself through relative_set_wrapper (tuple + offset).
 
    relative_set_wrapper  =  return (yield from msg_mutator(plan_mutator(plan, insert_reads), rewrite_pos))
        rel_init / rel_resume      = Deleg (Gen/Paired.v) over Rewrite over Insert (Gen/Insert.v)
@@ -54,6 +59,16 @@ Section Relative.
   Variable mk : rview T -> msg.            (* the wrappers' query / cleanup messages *)
   Variable mkn : nat -> rview T -> msg.     (* the n-th message object rewrite_pos creates *)
   Variable elig : dev -> bool.
+  (* the device tree and the pseudo-positioner coupling (`coupled_parents`, computed by _normalize_devices from the
+     `devices` argument; empty when that argument is None or names no pseudo-positioner):
+       parent d     = d.parent                    (ordinary parent devices, e.g. stage.x, and pseudo-positioners alike)
+       coupled p    = p in coupled_parents
+       pseudos p    = p.pseudo_positioners
+       comps v      = the components of a tuple-valued position (position of a pseudo-positioner), [] for a scalar *)
+  Variable parent : dev -> option dev.
+  Variable coupled : dev -> bool.
+  Variable pseudos : dev -> list dev.
+  Variable comps : T -> list T.
 
   Definition pstore := list (dev * T).
 
@@ -63,9 +78,36 @@ Section Relative.
     | (k, v) :: r => if Nat.eqb d k then Some v else ps_get d r
     end.
 
-  (* initial_positions[obj] = setpoint   (a new key goes last) *)
+  (* initial_positions[k] = v : an existing key keeps its place, a new key goes last *)
+  Fixpoint ps_set (k : dev) (v : T) (st : pstore) : pstore :=
+    match st with
+    | [] => [(k, v)]
+    | (k', v') :: r => if Nat.eqb k k' then (k', v) :: r else (k', v') :: ps_set k v r
+    end.
+
+  (* for c, p in zip(cs, vs): initial_positions[c] = p *)
+  Fixpoint ps_set_zip (cs : list dev) (vs : list T) (st : pstore) : pstore :=
+    match cs, vs with
+    | c :: cs', v :: vs' => ps_set_zip cs' vs' (ps_set c v st)
+    | _, _ => st
+    end.
+
+  Definition mem_d (d : dev) (l : list dev) : bool := existsb (Nat.eqb d) l.
+
+  (* the tail of __read_and_stash_a_motor once the setpoint is known (lines 1084-1099) *)
+  Definition record (d : dev) (v : T) (st : pstore) : pstore :=
+    let st1 := ps_set d v st in
+    let st2 := if coupled d then ps_set_zip (pseudos d) (comps v) st1 else st1 in
+    match parent d with
+    | Some p =>
+        if coupled p && mem_d d (pseudos p) then
+          let pp := position p in ps_set_zip (pseudos p) (comps pp) (ps_set p pp st2)
+        else st2
+    | None => st2
+    end.
+
   Definition stash (d : dev) (ans : val) (st : pstore) : ures pstore :=
-    UOk (st ++ [(d, match ans with VNone => zero | _ => pos_of ans end)]).
+    UOk (record d (match ans with VNone => zero | _ => pos_of ans end) st).
 
   (* insert_reads *)
   Definition rel_decide (st : pstore) (m : msg) : decision pstore :=
@@ -74,7 +116,7 @@ Section Relative.
         if elig d && negb (match ps_get d st with Some _ => true | None => false end) then
           match kind d with
           | KLocatable => DQuery (mk (RLocate d)) (stash d)
-          | KPosition => DDirect (st ++ [(d, position d)])
+          | KPosition => DDirect (record d (position d) st)
           | KRead => DQuery (mk (RRead d)) (stash d)
           end
         else DNone
@@ -116,9 +158,14 @@ Section Relative.
     match s with DStart (MStart x) | DStart (MRun x _) | DRun (MStart x) | DRun (MRun x _) => x end.
   Definition rel_finding (s : rel_state) (i : input) : bool := c24a_step (rel_ins s) i.
 
-  (* reset(): for k, v in initial_positions.items(): yield Msg('set', k, v, group=blk_grp); yield Msg('wait', group=blk_grp) *)
+  (* `k.parent in coupled_parents`: the pseudo axes of a coupled pseudo-positioner are carried back by their parent *)
+  Definition carried (d : dev) : bool := match parent d with Some p => coupled p | None => false end.
+  Definition restored (st : pstore) : pstore := filter (fun kv => negb (carried (fst kv))) st.
+
+  (* reset(): for k, v in initial_positions.items(): if k.parent in coupled_parents: continue;
+              yield Msg('set', k, v, group=blk_grp);   finally yield Msg('wait', group=blk_grp) *)
   Definition reset_plan (st : pstore) : lplan :=
-    LPStart (map (fun kv => mk (RSet (fst kv) (snd kv) G_RESET)) st ++ [mk (RWait G_RESET)]) None.
+    LPStart (map (fun kv => mk (RSet (fst kv) (snd kv) G_RESET)) (restored st) ++ [mk (RWait G_RESET)]) None.
 
   Definition reset_phase := @s2 (@istate P pstore) lplan.
   Definition reset_state := @dstate reset_phase.
